@@ -1018,6 +1018,9 @@ func gen(c *core.Ctx) error {
 		genSinful(c)
 	}
 	if !aborted {
+		genVersion(c)
+	}
+	if !aborted {
 		genSci(c)
 	}
 	c.Note(fmt.Sprintf("deepest call stack seen at a mock-stream ReadFrame: %d frames (oracle bound 64)", maxMsgDepthSeen))
